@@ -30,6 +30,7 @@ const (
 	KRet
 	KCallback
 	KJoin
+	KWait // potentially unbounded blocking operation
 	KUnknown
 )
 
@@ -44,6 +45,10 @@ type Node struct {
 	Kids []*Node
 	Note string
 }
+
+// neverHeld: the guard of locations that no lock protects (goroutine-confined fields, captured
+// variables written after publication); nobody acquires it.
+const neverHeld = "(never held)"
 
 func skip() *Node { return &Node{K: KSkip} }
 
@@ -91,6 +96,8 @@ type Fn struct {
 	nlits     int
 	closures  map[types.Object]*ast.FuncLit
 	synthetic bool
+	pubDone   bool
+	pubw      map[*ast.Ident]string
 }
 
 func (f *Fn) root() *Fn {
@@ -605,6 +612,9 @@ type tr struct {
 	gotoTargets map[types.Object]bool
 	valueCtx    string
 	siteCount   map[string]int
+	inComm      bool // inside the communication of a select clause
+	confHalf    string
+	pubw        map[*ast.Ident]string // assignment targets that are captured variables written after publication
 }
 
 func (t *tr) newLbl() int { t.nlbl++; return t.nlbl }
@@ -659,6 +669,11 @@ func (t *tr) translate() {
 		}
 		return true
 	})
+	if t.fn.decl != nil {
+		t.pubw = t.w.publishedWrites(t.fn)
+	} else {
+		t.pubw = t.w.publishedWrites(root)
+	}
 	t.fn.body = t.stmtList(t.bodyOf().List)
 }
 
@@ -1118,10 +1133,37 @@ func (t *tr) call(e *ast.CallExpr, pre *[]*Node) *Node {
 			return t.w.site(t, t.w.funcName(callee.Origin()), &Node{K: KCall, F: f})
 		}
 		// standard library
+		rtn := ""
+		if sig.Recv() != nil {
+			rt := sig.Recv().Type()
+			if p, ok := rt.(*types.Pointer); ok {
+				rt = p.Elem()
+			}
+			if n, ok := rt.(*types.Named); ok {
+				rtn = n.Obj().Name()
+			}
+		}
 		if recv != nil {
+			// which half of a confined reader/writer pair is used (conf confined_fields)
+			old := t.confHalf
+			if pkg == "bufio" && (rtn == "Writer" || rtn == "Reader") {
+				t.confHalf = strings.ToLower(rtn)
+			}
 			t.expr(recv, false, pre)
+			t.confHalf = old
 		}
 		full := pkg + "." + callee.Name()
+		wait := ""
+		switch {
+		case pkg == "bufio" && (rtn == "Writer" || rtn == "Reader" || rtn == "ReadWriter") &&
+			!map[string]bool{"Buffered": true, "Available": true, "Size": true, "Reset": true, "AvailableBuffer": true}[callee.Name()]:
+			wait = "bufio." + rtn + "." + callee.Name()
+		case full == "time.Sleep":
+			wait = full
+		case (pkg == "net" || pkg == "crypto/tls") && sig.Recv() != nil &&
+			map[string]bool{"Read": true, "Write": true, "Dial": true, "DialContext": true, "Handshake": true, "HandshakeContext": true}[callee.Name()]:
+			wait = pkg + "." + rtn + "." + callee.Name()
+		}
 		mutatesArg0 := map[string]bool{"sort.Strings": true, "sort.Ints": true, "sort.Slice": true, "sort.SliceStable": true,
 			"sort.Sort": true, "sort.Stable": true, "sort.Float64s": true}
 		var acts []*Node
@@ -1137,6 +1179,9 @@ func (t *tr) call(e *ast.CallExpr, pre *[]*Node) *Node {
 			}
 			t.expr(a, i == 0 && mutatesArg0[full], pre)
 		}
+		if wait != "" {
+			acts = append(acts, &Node{K: KWait, Note: wait})
+		}
 		if len(acts) > 0 {
 			return seq(acts...)
 		}
@@ -1151,9 +1196,16 @@ func (t *tr) call(e *ast.CallExpr, pre *[]*Node) *Node {
 			args()
 			fn := sel.Obj().(*types.Func)
 			if fn.Pkg() == nil || !t.w.ours(fn.Pkg()) {
-				return nil // interface of the standard library (error, io.Writer, net.Conn, ...)
+				// interface of the standard library (error, io.Writer, net.Conn, ...)
+				if fn.Pkg() != nil && fn.Pkg().Path() == "net" && (fn.Name() == "Read" || fn.Name() == "Write") {
+					return &Node{K: KWait, Note: "net.Conn." + fn.Name()}
+				}
+				return nil
 			}
 			if _, ok := t.w.mc.Plugins[strings.SplitN(t.w.funcName(fn), ".", 2)[0]]; ok {
+				if fn.Name() == "Dial" {
+					return &Node{K: KWait, Note: t.w.funcName(fn)}
+				}
 				return nil
 			}
 			return &Node{K: KCallback, Note: t.w.funcName(fn)}
@@ -1288,6 +1340,9 @@ func (t *tr) expr(e ast.Expr, wr bool, out *[]*Node) {
 		}
 	case *ast.UnaryExpr:
 		t.expr(e.X, false, out)
+		if e.Op == token.ARROW && !t.inComm {
+			*out = append(*out, &Node{K: KWait, Note: "<-" + exprString(e.X)})
+		}
 	case *ast.BinaryExpr:
 		t.expr(e.X, false, out)
 		if e.Op == token.LAND || e.Op == token.LOR {
@@ -1383,6 +1438,23 @@ func (t *tr) access(e *ast.SelectorExpr, field *types.Var, wr bool, out *[]*Node
 		return
 	}
 	key := owner + "." + field.Name()
+	if cf, ok := t.w.mc.Confined[key]; ok {
+		// goroutine-confined field: every use is an exclusive access to the half that is used;
+		// the location is guarded by a mutex nobody ever holds, and the owners of the half are
+		// excluded by generated by_design entries, so a use anywhere else is a violating fact
+		half := t.confHalf
+		if half == "" {
+			half = "ref"
+		}
+		_ = cf
+		t.setSeen(e.Sel.Pos(), "access")
+		k := KWr
+		if half == "ref" && !wr {
+			k = KRd
+		}
+		*out = append(*out, &Node{K: k, L: t.w.loc(key+"("+half+")", neverHeld), Note: exprString(e)})
+		return
+	}
 	if _, ok := t.w.mc.Unguarded[key]; ok {
 		t.setSeen(e.Sel.Pos(), "unguarded")
 		return
@@ -1534,17 +1606,62 @@ func (t *tr) breakable(s ast.Stmt, l *loopLbl) *Node {
 	case *ast.SelectStmt:
 		t.brk = append(t.brk, l.brk)
 		var alts []*Node
+		bounded := false // a default clause or a timer case bounds the wait
 		for _, c := range s.Body.List {
 			cc := c.(*ast.CommClause)
-			alts = append(alts, seq(t.stmt(cc.Comm), t.caseBody(cc.Body)))
+			if cc.Comm == nil || t.timerComm(cc.Comm) {
+				bounded = true
+			}
+			t.inComm = true
+			comm := t.stmt(cc.Comm)
+			t.inComm = false
+			alts = append(alts, seq(comm, t.caseBody(cc.Body)))
 		}
 		if len(alts) == 0 {
 			alts = append(alts, skip())
 		}
 		t.brk = t.brk[:len(t.brk)-1]
-		return &Node{K: KBlock, Lbl: l.brk, Kids: []*Node{{K: KAlt, Kids: alts}}}
+		sel := &Node{K: KBlock, Lbl: l.brk, Kids: []*Node{{K: KAlt, Kids: alts}}}
+		if !bounded {
+			return seq(&Node{K: KWait, Note: "select without default or timer"}, sel)
+		}
+		return sel
 	}
 	return t.unknown(s.Pos(), "breakable")
+}
+
+// timerComm: is the communication a receive from a timer (time.After, Timer.C, Ticker.C)?
+func (t *tr) timerComm(comm ast.Stmt) bool {
+	var x ast.Expr
+	switch c := comm.(type) {
+	case *ast.ExprStmt:
+		x = c.X
+	case *ast.AssignStmt:
+		if len(c.Rhs) == 1 {
+			x = c.Rhs[0]
+		}
+	}
+	u, ok := unparen(x).(*ast.UnaryExpr)
+	if x == nil || !ok || u.Op != token.ARROW {
+		return false
+	}
+	switch op := unparen(u.X).(type) {
+	case *ast.CallExpr:
+		if fn, _ := t.staticCallee(op); fn != nil && fn.Pkg() != nil && fn.Pkg().Path() == "time" && (fn.Name() == "After" || fn.Name() == "Tick") {
+			return true
+		}
+	case *ast.SelectorExpr:
+		if op.Sel.Name == "C" {
+			ty := t.typeOf(op.X)
+			if p, ok := ty.(*types.Pointer); ok {
+				ty = p.Elem()
+			}
+			if n, ok := ty.(*types.Named); ok && n.Obj().Pkg() != nil && n.Obj().Pkg().Path() == "time" {
+				return true
+			}
+		}
+	}
+	return false
 }
 
 func (t *tr) caseBody(list []ast.Stmt) *Node {
@@ -1562,7 +1679,9 @@ func (t *tr) lhs(e ast.Expr, out *[]*Node) {
 		return
 	}
 	if id, ok := unparen(e).(*ast.Ident); ok {
-		_ = id
+		if name, ok := t.pubw[id]; ok {
+			*out = append(*out, &Node{K: KWr, L: t.w.loc(name, neverHeld), Note: id.Name + " (captured by a published closure)"})
+		}
 		return
 	}
 	t.expr(e, true, out)
@@ -1577,7 +1696,10 @@ func (t *tr) stmt(s ast.Stmt) *Node {
 	case *ast.ExprStmt:
 		return t.effects(s.X)
 	case *ast.SendStmt:
-		return seq(t.effects(s.Chan), t.effects(s.Value))
+		if t.inComm {
+			return seq(t.effects(s.Chan), t.effects(s.Value))
+		}
+		return seq(t.effects(s.Chan), t.effects(s.Value), &Node{K: KWait, Note: exprString(s.Chan) + " <-"})
 	case *ast.IncDecStmt:
 		var out []*Node
 		t.expr(s.X, false, &out)
